@@ -135,7 +135,7 @@ func VerifyV4Signature(root RootUserConfig, iam auth.IAMService, logger s3log.Au
 
 		if !utils.IsSpecialPayload(hashPayload) {
 			// Calculate the hash of the request payload
-			hashedPayload := sha256.Sum256(ctx.Body())
+			hashedPayload := sha256.Sum256(ctx.BodyRaw())
 			hexPayload := hex.EncodeToString(hashedPayload[:])
 
 			// Compare the calculated hash with the hash provided
